@@ -110,10 +110,13 @@ DSameBase(fd) == base = [file |-> fd, valid |-> valid] /\ UNCHANGED dvars
 \* requested over all rounds are exactly those that were neither valid after the scan nor usable from A
 \* must = nothing stood in the way (a server that answers every request correctly, no damaged payload, no injected
 \* fault): the procedure then has to END with every chunk valid, a successful whole-data validation and B on disk
-DFinish(valRet, eqB, sized, must) ==
+\* bValid = the file the server holds is itself valid; if only its whole-data checksum is wrong (every chunk matches
+\* its index entry) the update can fill in every chunk, and the final validation is what has to refuse the result
+DFinish(valRet, eqB, sized, must, bValid) ==
     /\ phase = "scanned"
-    /\ must => ((\A c \in Idx : valid[c] = 1) /\ valRet = 1 /\ eqB)
-    /\ (\A c \in Idx : valid[c] = 1) => (valRet = 1 /\ eqB)
+    /\ ~bValid => valRet # 1
+    /\ (must /\ bValid) => ((\A c \in Idx : valid[c] = 1) /\ valRet = 1 /\ eqB)
+    /\ ((\A c \in Idx : valid[c] = 1) /\ bValid) => (valRet = 1 /\ eqB)
     /\ (\A c \in Idx : valid[c] = 1) =>
           requested = { c \in Idx : afterScan[c] # 1 /\ c \notin usableSeen /\ sized[c] }
     /\ phase' = "done" /\ UNCHANGED <<n, valid, disk, afterScan, requested, usableSeen, base>>
@@ -124,9 +127,9 @@ DFinish(valRet, eqB, sized, must) ==
 \* answers every request with the whole file: then only the result counts (what is transferred is the server's choice).
 \* must = nothing stands in the way of this run (a well-behaved server, possibly with a limit on ranges per request, no
 \* injected fault, not killed): C04/C11 then promise that it terminates successfully with B, whatever the target held
-DToolRun(status, eqB, X, wholeChunks, d, usable, sized, full, must) ==
-    /\ status = 0 => eqB                                                   \* success => identical to B
-    /\ must => (status = 0 /\ eqB)
+DToolRun(status, eqB, X, wholeChunks, d, usable, sized, full, must, bValid) ==
+    /\ status = 0 => (eqB /\ bValid)                                      \* success => identical to B, and B validated
+    /\ (must /\ bValid) => (status = 0 /\ eqB)
     /\ ~full =>
         /\ wholeChunks
         /\ \A k \in 1..Len(X) : ~d[X[k]] /\ ~usable[X[k]]                      \* nothing present or locally available is fetched
